@@ -324,6 +324,12 @@ func planTags(b []byte, plan []faultOne) []string {
 
 // measurePeak runs f and returns the growth of the live heap at its highest sampled point (KiB)
 func measurePeak(f func()) int {
+	// HeapAlloc counts unswept garbage too: with the default GC pacing the heap may double before a
+	// collection, and the worker's own data (the corpus) is a large base. Collect first and keep the
+	// collector tight while measuring, so that what is sampled is close to the live heap.
+	old := debug.SetGCPercent(5)
+	defer debug.SetGCPercent(old)
+	runtime.GC()
 	var m runtime.MemStats
 	runtime.ReadMemStats(&m)
 	base := m.HeapAlloc
